@@ -263,7 +263,7 @@ func (data stageData) showListing(atomSlice atom.AtomSlice, listFiles, byPackage
 			cursor.Println(item.String())
 		}
 	}
-	return nil
+	return cursor.Close()
 }
 
 
@@ -283,9 +283,13 @@ func (data stageData) writeTarFile(atomSlice atom.AtomSlice) error {
 	tarWriter, deferred := data.makeTarWriter(fileWriter)
 	err = fileList.MakeTar(tarWriter)
 	if err != nil {
-		return nil
+		tarWriter.Close()
+		return err
 	}
-	tarWriter.Close()
+	err = tarWriter.Close()
+	if err != nil {
+		return err
+	}
 	return <-deferred
 }
 
